@@ -144,6 +144,73 @@ Section Life.
       + apply pc_insert_leaf; auto. eapply absent_is_leaf; eauto.
   Qed.
 
+  (** ** removing an (as far as the overlay shows: empty) directory that exists only in the lower layer *)
+  Lemma set_whiteout0 (s0 s1 : mstate) hs (p : path) :
+    wf s0 -> s0 !! whiteout_path top p = None ->
+    Forall (not_file s0) (prefixes (removelast (whiteout_path top p))) ->
+    exists s0',
+      run bhandler (set_whiteout top p) (S2 s0 s1 hs) = (S2 s0' s1 (hs ++ [HClosed]), Ok tt) /\
+      is_Some (s0' !! whiteout_path top p) /\
+      (forall q, q ∉ prefixes (whiteout_path top p) -> s0' !! q = s0 !! q) /\
+      wf s0'.
+  Proof.
+    intros Hwf Hwo Hfree.
+    unfold set_whiteout. cbn [fst].
+    set (wo := whiteout_path top p) in *.
+    assert (Hwone : wo <> []).
+    { unfold wo, whiteout_path. destruct (reverse p); discriminate. }
+    destruct (create_dir_all0 s0 s1 hs (removelast wo) Hwf Hfree) as (sa & Hrun & Hdirs & Hwfa & Hsame & Hmono).
+    unfold bind_res at 1. rewrite run_bind, Hrun.
+    assert (Hpar : is_dir sa (removelast wo)).
+    { destruct (decide (removelast wo = [])) as [E|E].
+      - rewrite E. apply Hmono. apply Hwf.
+      - eapply Forall_forall in Hdirs; [exact Hdirs|]. now apply self_prefix. }
+    pose proof (not_prefix_of_parent wo Hwone) as Hnot.
+    assert (Hsan : sa !! wo = None) by (rewrite (Hsame wo Hnot); exact Hwo).
+    unfold bind_res at 1. rewrite run_bind, (create_file0 sa s1 hs wo Hwone Hpar Hsan).
+    rewrite run_bind. cbn [run bhandler].
+    rewrite (drop_fresh_writer0 _ s1 hs wo (mkMemFile File [] TAuto (Some TAuto) (Some TAuto)));
+      [|apply lookup_insert|reflexivity].
+    cbn [fst snd run f_created f_accessed]. rewrite insert_insert.
+    eexists. split; [reflexivity|]. split; [rewrite lookup_insert; eauto|]. split.
+    - intros q Hq. rewrite lookup_insert_ne.
+      + apply Hsame. intros Hin. apply Hq. now apply prefixes_removelast.
+      + intros ->. apply Hq. now apply self_prefix.
+    - destruct Hwfa as [Hr Hpc]. split.
+      + apply root_dir_insert_ne; auto.
+      + apply pc_insert_leaf; auto. eapply absent_is_leaf; eauto.
+  Qed.
+
+  Theorem remove_lower_dir_sets_marker (s0 s1 : mstate) hs (p : path) :
+    wf s0 -> p <> [] ->
+    s0 !! whiteout_path top p = None ->                  (* not deleted yet *)
+    s0 !! p = None -> is_dir s1 p ->                     (* a directory of the lower layer only *)
+    (s0 !! (whiteout_name :: p) = None \/ is_dir s0 (whiteout_name :: p)) ->
+    (forall c, is_Some (s1 !! (p ++ [c])) -> is_Some (s0 !! whiteout_path top (p ++ [c]))) ->  (* its entries are all deleted *)
+    Forall (not_file s0) (prefixes (removelast (whiteout_path top p))) ->
+    exists s0',
+      run bhandler (ovl_impl top lower (CRemoveDir p)) (S2 s0 s1 hs) = (S2 s0' s1 (hs ++ [HClosed]), Ok tt) /\
+      is_Some (s0' !! whiteout_path top p) /\
+      (forall q, q ∉ prefixes (whiteout_path top p) -> s0' !! q = s0 !! q) /\
+      wf s0'.
+  Proof.
+    intros Hwf Hp Hwo Hup Hlow Hwdir Hkids Hfree.
+    cbn [ovl_impl]. unfold bind_res at 1. rewrite run_bind, (read_path_rule hs lg ft s0 s1 p Hp).
+    rewrite bool_decide_eq_false_2 by (rewrite Hup; intros [? ?]; discriminate).
+    rewrite bool_decide_eq_false_2 by (rewrite Hwo; intros [? ?]; discriminate).
+    rewrite bool_decide_eq_true_2 by (destruct Hlow as (d & -> & _); eauto).
+    destruct (read_dir_rule hs lg ft s0 s1 p (proj2 Hwf) Hp Hwo (or_intror (conj Hup Hlow)) Hwdir) as (l & Hrun & Hl).
+    unfold bind_res at 1. rewrite run_bind, Hrun.
+    assert (l = []) as ->.
+    { apply elem_of_nil_inv. intros c Hc. apply Hl in Hc as [[[(d & Hd & _) _]|[_ Hc]] Hm].
+      - congruence.
+      - apply Hkids in Hc as [y Hy]. rewrite Hm in Hy. discriminate. }
+    unfold write_path. cbn [fst snd app]. unfold bind_res at 1. rewrite run_bind, exists0, Hup.
+    rewrite bool_decide_eq_false_2 by (intros [? ?]; discriminate).
+    unfold bind_res at 1. rewrite run_bind. cbn [run].
+    exact (set_whiteout0 s0 s1 hs p Hwf Hwo Hfree).
+  Qed.
+
   (** and from then on the overlay does not see the file, although the lower layer still has it *)
   Corollary removed_file_is_absent (s1 s0' : mstate) (hs' : list hstate) (p : path) :
     p <> [] -> is_Some (s0' !! whiteout_path top p) -> s0' !! p = None ->
@@ -325,6 +392,54 @@ Section Life.
     rewrite Hrun. f_equal. f_equal. apply elem_of_nil_inv. intros c Hc. apply Hl in Hc as [[[_ [x Hx]]|[_ Hc]] Hm].
     - rewrite Hup in Hx. discriminate.
     - apply Hlow in Hc as [y Hy]. rewrite Hm in Hy. discriminate.
+  Qed.
+
+  (** ** creating a top-level entry that no layer has: it appears in the write layer, nothing else changes *)
+  Theorem create_fresh_dir (s0 s1 : mstate) hs (n : name) :
+    wf s0 -> s0 !! whiteout_path top [] = None -> s0 !! whiteout_path top [n] = None ->
+    s0 !! [n] = None -> s1 !! [n] = None ->
+    run bhandler (ovl_impl top lower (CCreateDir [n])) (S2 s0 s1 hs) =
+    (S2 (<[[n] := mkMemFile Dir [] TAuto (Some TAuto) (Some TAuto)]> s0) s1 hs, Ok tt).
+  Proof.
+    intros Hwf Hroot Hm Hup Hlow.
+    destruct Hwf as [(r & Hr & Hrt) Hpc].
+    cbn [ovl_impl]. unfold bind_res at 1. rewrite run_bind.
+    rewrite (ensure_parent_root s0 s1 hs n (conj (ex_intro _ r (conj Hr Hrt)) Hpc) Hroot).
+    unfold bind_res at 1. rewrite run_bind, (exists_rule hs lg ft s0 s1 [n] ltac:(discriminate)), Hm, Hup, Hlow.
+    repeat (rewrite bool_decide_eq_false_2 by (intros [? ?]; discriminate)). cbn [negb andb orb].
+    unfold bind_res at 1. rewrite run_bind.
+    assert (Hrootdir : is_dir s0 (removelast [n])) by (cbn; exists r; auto).
+    unfold write_path. cbn [fst snd app].
+    rewrite (create_dir0 s0 s1 hs [n] ltac:(discriminate) Hrootdir Hup).
+    unfold clear_whiteout. cbn [fst]. unfold bind_res at 1. rewrite run_bind, exists0.
+    assert (Hne : whiteout_path top [n] <> [n]).
+    { unfold whiteout_path. cbn. discriminate. }
+    rewrite lookup_insert_ne by congruence. rewrite Hm.
+    rewrite bool_decide_eq_false_2 by (intros [? ?]; discriminate). reflexivity.
+  Qed.
+
+  Theorem create_fresh_file (s0 s1 : mstate) hs (n : name) :
+    wf s0 -> s0 !! whiteout_path top [] = None -> s0 !! whiteout_path top [n] = None ->
+    s0 !! [n] = None -> s1 !! [n] = None ->
+    run bhandler (ovl_impl top lower (CCreateFile [n])) (S2 s0 s1 hs) =
+    (S2 (<[[n] := mkMemFile File [] TAuto (Some TAuto) (Some TAuto)]> s0) s1 (hs ++ [HMemWriter 0 [n] [] 0]), Ok (length hs)).
+  Proof.
+    intros Hwf Hroot Hm Hup Hlow.
+    destruct Hwf as [(r & Hr & Hrt) Hpc].
+    cbn [ovl_impl]. unfold bind_res at 1. rewrite run_bind.
+    rewrite (ensure_parent_root s0 s1 hs n (conj (ex_intro _ r (conj Hr Hrt)) Hpc) Hroot).
+    unfold bind_res at 1. rewrite run_bind, (exists_rule hs lg ft s0 s1 [n] ltac:(discriminate)), Hm, Hup, Hlow.
+    repeat (rewrite bool_decide_eq_false_2 by (intros [? ?]; discriminate)). cbn [negb andb orb].
+    unfold bind_res at 1. rewrite run_bind. cbn [run].
+    unfold bind_res at 1. rewrite run_bind.
+    assert (Hrootdir : is_dir s0 (removelast [n])) by (cbn; exists r; auto).
+    unfold write_path. cbn [fst snd app].
+    rewrite (create_file0 s0 s1 hs [n] ltac:(discriminate) Hrootdir Hup).
+    rewrite run_bind. unfold clear_whiteout. cbn [fst]. unfold bind_res at 1. rewrite run_bind, exists0.
+    assert (Hne : whiteout_path top [n] <> [n]).
+    { unfold whiteout_path. cbn. discriminate. }
+    rewrite lookup_insert_ne by congruence. rewrite Hm.
+    rewrite bool_decide_eq_false_2 by (intros [? ?]; discriminate). reflexivity.
   Qed.
 
 End Life.
